@@ -1981,7 +1981,15 @@ class Interp:
         if getattr(ctx, "mark_calls", None) and fr == getattr(ctx, "root_frame", None):
             for suffix, mark in ctx.mark_calls.items():
                 if callee["dpath"].endswith(suffix):
-                    st.ghost[("visited", mark)] = const_int(1)
+                    if mark.startswith("#"):          # counted: how many calls of this function lie on the path
+                        prev = st.ghost.get(("visited", mark))
+                        n0 = st.get_iv(prev)[0] if prev is not None else 0
+                        st.ghost[("visited", mark)] = const_int(n0 + 1)
+                        for ai, a in enumerate(args):
+                            if is_int(a):
+                                st.ghost[("arg", mark, n0, ai)] = a
+                    else:
+                        st.ghost[("visited", mark)] = const_int(1)
         if getattr(ctx, "arg_log", None) is not None:
             for suffix, log in ctx.arg_log.items():
                 if callee["dpath"].endswith(suffix):
